@@ -2,7 +2,8 @@
 R-ANNOUNCE(d) (reset re-triggers everything), R-SOLVED (is_solved over all shared domains)."""
 from __future__ import annotations
 
-from typing import Any, Dict, List, Optional, Tuple
+import ast
+from typing import Any, Dict, List, Optional, Set, Tuple
 
 from ..core import Ctx
 from ..interp import ALL, Dual, Event, FuncVal, Interp, LoopSummary, PathResult, State, View, as_view, NONE
@@ -364,3 +365,143 @@ def rule_domain_source(ctx: Ctx, prog: Program) -> None:
                                   f"{name} initialises the choice points from {src!r}, not from a fresh np.array(problem.shr_domains_lst): the domains a solver "
                                   "starts from must be read from the list that split() and the model API write, at the time the solver (re)starts")
     ctx.floor("R-DOMAIN-SOURCE:cp_init-sites", n, 2)
+
+
+# ------------------------------------------------------------------------------------------ R-OPTIONAL-RESULT
+def _maybe_none_callees(prog: Program) -> Dict[str, List[FuncInfo]]:
+    """bare function / method names of the solvers package whose return annotation admits None"""
+    out: Dict[str, List[FuncInfo]] = {}
+    for f in prog.all_functions():
+        if not f.module.startswith(f"{prog.package}.solvers"):
+            continue
+        r = f.node.returns
+        if r is None:
+            continue
+        txt = ast.unparse(r).replace(" ", "")
+        if txt.startswith("Optional[") or txt.endswith("|None") or txt.startswith("None|"):
+            out.setdefault(f.name, []).append(f)
+    return out
+
+
+def rule_optional_result(ctx: Ctx, prog: Program) -> None:
+    """minimize / maximize / optimize / solve_one answer None when there is no solution.  A caller that subscripts the answer before it has
+    tested it against None turns 'no solution' into a TypeError (interpreted) -- the optimisation of an infeasible problem raises instead of
+    returning None.  Rule: in the solvers package, a name bound to the result of a function whose return annotation admits None is not
+    subscripted / dereferenced where it may still be None (flow-sensitive over if / while / early exits, `is None` / `is not None` tests)."""
+    ctx.rule("R-OPTIONAL-RESULT")
+    callees = _maybe_none_callees(prog)
+    n_sites = 0
+
+    def is_maybe_call(e: ast.expr) -> bool:
+        if isinstance(e, ast.Call):
+            f = e.func
+            nm = f.id if isinstance(f, ast.Name) else f.attr if isinstance(f, ast.Attribute) else None
+            return nm in callees
+        return False
+
+    def test_facts(t: ast.expr) -> Tuple[Set[str], Set[str], Set[str]]:
+        """(names bound maybe-None by a walrus in the test, names known not-None when the test holds, names known not-None when it fails)"""
+        bound: Set[str] = set()
+        nn_true: Set[str] = set()
+        nn_false: Set[str] = set()
+        if isinstance(t, ast.Compare) and len(t.ops) == 1 and isinstance(t.comparators[0], ast.Constant) and t.comparators[0].value is None:
+            l = t.left
+            nm = None
+            if isinstance(l, ast.NamedExpr) and isinstance(l.target, ast.Name):
+                nm = l.target.id
+                if is_maybe_call(l.value):
+                    bound.add(nm)
+            elif isinstance(l, ast.Name):
+                nm = l.id
+            if nm:
+                if isinstance(t.ops[0], ast.IsNot):
+                    nn_true.add(nm)
+                elif isinstance(t.ops[0], ast.Is):
+                    nn_false.add(nm)
+        elif isinstance(t, ast.BoolOp) and isinstance(t.op, ast.And):
+            for v in t.values:
+                b, a, _ = test_facts(v)
+                bound |= b
+                nn_true |= a
+        elif isinstance(t, ast.UnaryOp) and isinstance(t.op, ast.Not):
+            b, a, c = test_facts(t.operand)
+            return b, c, a
+        return bound, nn_true, nn_false
+
+    def exits(body: List[ast.stmt]) -> bool:
+        return bool(body) and isinstance(body[-1], (ast.Return, ast.Raise, ast.Continue, ast.Break))
+
+    def derefs(e: ast.AST, maybe: Set[str], fn: FuncInfo) -> None:
+        nonlocal n_sites
+        # left-to-right: `x is not None and x[i]` is fine
+        if isinstance(e, ast.BoolOp) and isinstance(e.op, ast.And):
+            cur = set(maybe)
+            for v in e.values:
+                derefs(v, cur, fn)
+                _, a, _ = test_facts(v)
+                cur -= a
+            return
+        if isinstance(e, ast.IfExp):
+            _, a, c = test_facts(e.test)
+            derefs(e.test, maybe, fn)
+            derefs(e.body, maybe - a, fn)
+            derefs(e.orelse, maybe - c, fn)
+            return
+        if isinstance(e, (ast.Subscript, ast.Attribute)) and isinstance(e.value, ast.Name) and e.value.id in maybe:
+            n_sites += 1
+            ctx.violation("R-OPTIONAL-RESULT", fn.path, fn.qualname, f"deref-maybe-none:{e.value.id}", f"{fn.path}:{e.lineno}",
+                          f"{fn.qualname} uses `{ast.unparse(e)}` where `{e.value.id}` (the answer of a function that returns None when there is no solution) "
+                          "has not been tested against None: for an infeasible problem the call raises TypeError instead of returning None")
+        for ch in ast.iter_child_nodes(e):
+            if not isinstance(ch, (ast.FunctionDef, ast.Lambda)):
+                derefs(ch, maybe, fn)
+
+    def block(stmts: List[ast.stmt], maybe: Set[str], fn: FuncInfo) -> Set[str]:
+        maybe = set(maybe)
+        for st in stmts:
+            if isinstance(st, ast.Assign) and len(st.targets) == 1 and isinstance(st.targets[0], ast.Name):
+                derefs(st.value, maybe, fn)
+                if is_maybe_call(st.value):
+                    maybe.add(st.targets[0].id)
+                elif isinstance(st.value, ast.Name) and st.value.id in maybe:
+                    maybe.add(st.targets[0].id)
+                else:
+                    maybe.discard(st.targets[0].id)
+            elif isinstance(st, ast.If):
+                b, a, c = test_facts(st.test)
+                derefs(st.test, maybe, fn)
+                m1 = block(st.body, (maybe | b) - a, fn)
+                m2 = block(st.orelse, (maybe | b) - c, fn)
+                after = set()
+                if not exits(st.body):
+                    after |= m1
+                if not exits(st.orelse) or not st.orelse:
+                    after |= m2 if st.orelse else ((maybe | b) - c)
+                maybe = after
+            elif isinstance(st, ast.While):
+                b, a, c = test_facts(st.test)
+                derefs(st.test, maybe, fn)
+                block(st.body, (maybe | b) - a, fn)
+                maybe = (maybe | b) - c
+            elif isinstance(st, (ast.For, ast.With, ast.Try)):
+                for nm in ("body", "orelse", "finalbody"):
+                    maybe = block(getattr(st, nm, []) or [], maybe, fn)
+                for h in getattr(st, "handlers", []) or []:
+                    block(h.body, maybe, fn)
+            else:
+                derefs(st, maybe, fn)
+        return maybe
+
+    n_fn = 0
+    for f in prog.all_functions():
+        if not f.module.startswith(f"{prog.package}.solvers") or f.njit:
+            continue
+        if not any(is_maybe_call(n) for n in ast.walk(f.node)):
+            continue
+        n_fn += 1
+        ctx.fn(f.fq)
+        before = n_sites
+        block(f.node.body, set(), f)
+        if n_sites == before:
+            ctx.ok("R-OPTIONAL-RESULT", f"{f.qualname}: every use of a maybe-None answer is guarded", nontrivial=False)
+    ctx.floor("R-OPTIONAL-RESULT:callers", n_fn, 4)
